@@ -51,19 +51,21 @@ type fn struct {
 	params   []string
 	ptypes   []ity
 	result   ity
-	named    string // named result, or ""
+	named    string   // named result, or ""
 	multi    []string // several named results (tuple-valued function)
 	mtypes   []ity
-	recv     string   // receiver name of a method, or ""
+	recv     string // receiver name of a method, or ""
 	recvType string
 	ptrRecv  bool     // pointer receiver (may update the state); a value receiver returns the state unchanged
 	state    []string // translated fields of the receiver, as "recv.field"
 	stypes   []ity
 	ignored  map[string]bool // receiver fields that are not translated (mutexes, channels)
-	rtypes   []ity    // result types of an unnamed multi-result method
-	hasLoop  bool   // own body contains a loop
-	needFuel bool   // hasLoop or calls a function that needs fuel
+	rtypes   []ity           // result types of an unnamed multi-result method
+	hasLoop  bool            // own body contains a loop
+	needFuel bool            // hasLoop or calls a function that needs fuel
 	calls    []string
+	coqName  string            // Coq name of a method on a named integer type (translated as a function of the receiver)
+	imports  map[string]string // import name -> path of the file the function comes from
 }
 
 type tr struct {
@@ -106,6 +108,12 @@ func typeOfExpr(x ast.Expr) (ity, bool) {
 			return "ANY", true
 		}
 	case *ast.ArrayType:
+		if lit, ok := v.Len.(*ast.BasicLit); ok && lit.Kind == token.INT {
+			// [N]byte: a local array, usable only as x[:] (see the DeclStmt, exprS and PutUint64 cases)
+			if el, ok := typeOfExpr(v.Elt); ok && el == "U8" {
+				return "ARR_U8", true
+			}
+		}
 		if v.Len == nil {
 			if el, ok := typeOfExpr(v.Elt); ok && el == "ANY" {
 				return "SLICE_ANY", true
@@ -128,7 +136,7 @@ func coqType(ty ity) string {
 		return "option Z"
 	case "SLICE_ANY":
 		return "list (option Z)"
-	case "SLICE_U8":
+	case "SLICE_U8", "ARR_U8":
 		return "list Z"
 	}
 	return "Z"
@@ -289,6 +297,38 @@ func (t *tr) methodValue(c *ast.CallExpr, g *fn, en env) string {
 }
 
 // pattern is the binder for a result tuple: a name, or a destructuring pattern '(a, b, c)
+// putUint64Idiom recognises binary.LittleEndian.PutUint64(x[:], e) for a local array x ([N]byte) where
+// `binary` is the file's import of encoding/binary and is not shadowed: the write goes to x itself.
+func (t *tr) putUint64Idiom(c *ast.CallExpr, en env) (string, ast.Expr, bool) {
+	sel, ok := c.Fun.(*ast.SelectorExpr)
+	if !ok || sel.Sel.Name != "PutUint64" || len(c.Args) != 2 {
+		return "", nil, false
+	}
+	le, ok := sel.X.(*ast.SelectorExpr)
+	if !ok || le.Sel.Name != "LittleEndian" {
+		return "", nil, false
+	}
+	pkg, ok := le.X.(*ast.Ident)
+	if !ok || t.cur.imports[pkg.Name] != "encoding/binary" {
+		return "", nil, false
+	}
+	if _, shadow := en[pkg.Name]; shadow {
+		fail(t.pos(c), "%s is shadowed by a local variable", pkg.Name)
+	}
+	sl, ok := c.Args[0].(*ast.SliceExpr)
+	if !ok || sl.Low != nil || sl.High != nil || sl.Max != nil {
+		fail(t.pos(c), "PutUint64 on something other than x[:]")
+	}
+	n, ok := t.lname(sl.X)
+	if !ok || en[n] != "ARR_U8" {
+		fail(t.pos(c), "PutUint64 on something other than a local byte array")
+	}
+	if t.typeOf(c.Args[1], en) != "U64" {
+		fail(t.pos(c), "PutUint64 of a value that is not a uint64")
+	}
+	return n, c.Args[1], true
+}
+
 func pattern(names []string) string {
 	if len(names) == 1 {
 		return names[0]
@@ -634,6 +674,11 @@ func (t *tr) exprS(e ast.Expr, en env) string {
 		if n, ok := t.lname(e); ok && en[n] == "SLICE_U8" {
 			return fmt.Sprintf("(Val %s)", cv(n))
 		}
+	case *ast.SliceExpr:
+		// x[:] of a local [N]byte: the whole array as a slice
+		if n, ok := t.lname(v.X); ok && en[n] == "ARR_U8" && v.Low == nil && v.High == nil && v.Max == nil {
+			return fmt.Sprintf("(Val %s)", cv(n))
+		}
 	case *ast.CallExpr:
 		t.noShadow(v, en)
 		if s, n, ok := appendMakeIdiom(v); ok {
@@ -907,6 +952,12 @@ func (t *tr) stmts(list []ast.Stmt, en env, depth int, k func(env) string) strin
 			return next(en)
 		}
 		if c, ok := v.X.(*ast.CallExpr); ok {
+			if arr, val, ok := t.putUint64Idiom(c, en); ok {
+				a := t.tmp()
+				return fmt.Sprintf("(%s <- (%s <- %s ;; go_put_le64 %s %s) ;;\n %s)", cv(arr), a, t.exprZ(val, en, "U64"), cv(arr), a, next(en))
+			}
+		}
+		if c, ok := v.X.(*ast.CallExpr); ok {
 			if g := t.methodCallee(c); g != nil {
 				// recv.m(args) as a statement: results are dropped; the state returned by a pointer-receiver callee
 				// replaces the caller's state variables (a value-receiver callee cannot have changed it)
@@ -972,6 +1023,16 @@ func (t *tr) stmts(list []ast.Stmt, en env, depth int, k func(env) string) strin
 				fail(t.pos(s), "variable of a non-integer type")
 			}
 		}
+		if ty == "ARR_U8" {
+			if len(vs.Values) != 0 {
+				fail(t.pos(s), "array variable with an initialiser")
+			}
+			if _, exists := en[name]; exists {
+				fail(t.pos(s), "redeclaration of %s", name)
+			}
+			n := vs.Type.(*ast.ArrayType).Len.(*ast.BasicLit).Value
+			return assign(name, "ARR_U8", fmt.Sprintf("(Val (go_zero_array %s))", n), en)
+		}
 		rhs := "(Val 0)"
 		if len(vs.Values) == 1 {
 			if ty == "" {
@@ -1015,7 +1076,7 @@ func (t *tr) stmts(list []ast.Stmt, en env, depth int, k func(env) string) strin
 			}
 			return fmt.Sprintf("(Val %s)", cv(t.cur.named))
 		case 1:
-			return t.exprZ(v.Results[0], en, t.cur.result)
+			return t.exprOf(v.Results[0], en, t.cur.result)
 		}
 		fail(t.pos(s), "return of several values")
 	case *ast.BlockStmt:
@@ -1202,7 +1263,11 @@ func (t *tr) function(f *fn) string {
 		sb.WriteString(" " + body + ".\n\n")
 		return sb.String()
 	}
-	fmt.Fprintf(&sb, "Definition %s", fname(f.decl.Name.Name))
+	if f.coqName != "" {
+		fmt.Fprintf(&sb, "Definition %s", f.coqName)
+	} else {
+		fmt.Fprintf(&sb, "Definition %s", fname(f.decl.Name.Name))
+	}
 	if f.needFuel {
 		sb.WriteString(" (fuel : nat)")
 	}
@@ -1217,7 +1282,11 @@ func (t *tr) function(f *fn) string {
 			fmt.Fprintf(&sb, " let %s := 0 in\n", cv(n))
 		}
 	} else {
-		sb.WriteString(" : res Z :=\n")
+		if ct := coqType(f.result); ct == "Z" {
+			sb.WriteString(" : res Z :=\n")
+		} else {
+			sb.WriteString(" : res (" + ct + ") :=\n")
+		}
 	}
 	if f.named != "" {
 		en[f.named] = f.result
@@ -1293,10 +1362,28 @@ func main() {
 				}
 				var src strings.Builder
 				_ = printer.Fprint(&src, t.fset, &ast.FuncDecl{Recv: found.Recv, Name: found.Name, Type: found.Type, Body: found.Body})
-				f := &fn{decl: found, file: parts[0], src: src.String()}
+				f := &fn{decl: found, file: parts[0], src: src.String(), imports: map[string]string{}}
+				for _, im := range file.Imports {
+					path := strings.Trim(im.Path.Value, "\"")
+					nm := path[strings.LastIndex(path, "/")+1:]
+					if im.Name != nil {
+						nm = im.Name.Name
+					}
+					f.imports[nm] = path
+				}
+				if rty, isNamedInt := typeNames[recvType]; recvType != "" && isNamedInt && isInt(rty) {
+					// a method on a named integer type with a value receiver: a function of the receiver's value
+					if _, ptr := found.Recv.List[0].Type.(*ast.StarExpr); ptr || len(found.Recv.List[0].Names) != 1 {
+						fail(t.pos(found), "method on a named integer type needs a named value receiver")
+					}
+					f.params = append(f.params, found.Recv.List[0].Names[0].Name)
+					f.ptypes = append(f.ptypes, rty)
+					f.coqName = recvType + "_" + method
+					recvType = ""
+				}
 				for _, fld := range found.Type.Params.List {
 					ty, ok := typeOfExpr(fld.Type)
-					if !ok || ty == "SLICE_ANY" || ty == "SLICE_U8" {
+					if !ok || ty == "SLICE_ANY" || ty == "SLICE_U8" || ty == "ARR_U8" {
 						fail(t.pos(fld), "parameter of an untranslated type")
 					}
 					if recvType == "" && (ty == "B" || ty == "ANY") {
@@ -1332,6 +1419,9 @@ func main() {
 					}
 					for _, fld := range sd.Fields.List {
 						ty, ok := typeOfExpr(fld.Type)
+						if ty == "ARR_U8" {
+							ok = false
+						}
 						for _, n := range fld.Names {
 							if ok {
 								f.state = append(f.state, f.recv+"."+n.Name)
@@ -1344,7 +1434,7 @@ func main() {
 					if found.Type.Results != nil {
 						for _, rf := range found.Type.Results.List {
 							ty, ok := typeOfExpr(rf.Type)
-							if !ok || ty == "SLICE_ANY" {
+							if !ok || ty == "SLICE_ANY" || ty == "ARR_U8" {
 								fail(t.pos(rf), "result of an untranslated type")
 							}
 							if len(rf.Names) == 0 {
@@ -1363,7 +1453,7 @@ func main() {
 					}
 					rf := found.Type.Results.List[0]
 					ty, ok := typeOfExpr(rf.Type)
-					if !ok || !isInt(ty) {
+					if !ok || !(isInt(ty) || (ty == "SLICE_U8" && len(rf.Names) == 0)) {
 						fail(t.pos(rf), "result of a non-integer type")
 					}
 					f.result = ty
